@@ -114,3 +114,8 @@ uint32_t lintgood_or_scan(void)
 	for (i = 0; i < 20; i ++) bad |= t[i];
 	return bad;
 }
+
+/* round-down-mask-keeps-high-word */
+uint64_t lintbad_narrow_mask(uint64_t count) { return count & ~127u; }
+uint64_t lintgood_narrow_mask(uint64_t count) { return count & ~(uint64_t)127; }
+uint64_t lintgood_narrow_mask2(uint32_t lo) { return (uint64_t)lo & ~127u; }
